@@ -62,8 +62,9 @@ sec9 = ["## 9. Seeded changes: which check catches what", "",
  "Each change compiles and keeps the repository's suite green; each comes with a demonstration",
  "test that passes on the unchanged tree and fails with the patch, which I re-ran myself in a scratch worktree before keeping the change",
  "(`bin/seedverify`; `meta.json.confirmed_by_me`). `bin/seedtest <dir> <tier> <ids>` applies a patch to `/repo` (3-way), runs the named checks and",
- "reverts; `bin/seedmatrix` does it for all of them and writes `seeded/RESULTS.tsv`. No patch was ever committed to `/repo`; all worktrees are removed.",
- "Patches rebased after my own fixes or hooks moved the surrounding code: C04A, C05B, C13B, C13F, C18A, C18B, C18C.",
+ "reverts; `bin/seedmatrix` does it for all of them and writes `seeded/RESULTS.tsv`; `bin/seedmatrixwt` does the same without touching `/repo`'s working tree (scratch",
+ "worktree of HEAD + scratch copy of `/verif`, `VERIF_REPO` pointing the checks at the worktree), which is how the last measurements were taken. No patch was ever committed to `/repo`; all worktrees are removed.",
+ "Patches rebased after my own fixes or hooks moved the surrounding code: C04A, C05B, C13B, C13F, C18A, C18B, C18C. Neutralised by my own fixes: C07B, C12B, C14B, C04F. Two detections turned out to depend on chance (C02C on the pooled context surviving between two requests under load, C15D on the sampled histories) and were made deterministic (a value-laden request before every observed one; a focused configuration).",
  "",
  "How the checks did **as they stood** when each batch arrived is the honest measure of how far they generalise:",
  "",
@@ -80,7 +81,7 @@ sec9 = ["## 9. Seeded changes: which check catches what", "",
  "spelling of a prefix, how a registration is written, a value class, a second application, a recycled buffer, a failing handler, a request in the middle",
  "of the program, another component's clock, the collector's gap, call sequences on a holder ...), and the *specification* -- not just the driver -- was",
  "extended until the change was caught; no check was loosened. Extending it found five more genuine defects on the way (`f401b3b`, `6d15e73`, `b7b6f7a`, `fb5d6ec`,",
- "`C18-set-reorders-other-values`). Final state: every live change is caught by the quick tier (table below), 3 are neutralised by my own fixes.",
+ "`C18-set-reorders-other-values`). Final state: every live change is caught by the quick tier (table below), 4 are neutralised by my own fixes.",
  "The notes column says what was added.", "",
  "| seed | change (one line) | caught by (quick tier) | rc | violations | notes |", "|---|---|---|---|---|---|"]
 NOTES = {
